@@ -282,6 +282,96 @@ func runJobctlScenarios(c *Ctx) {
 		c.Nontrivial()
 	})
 
+	// F25 (known finding, same root cause as F19: the controller keeps no record of a create whose
+	// status write failed and whose pod event has not arrived).  Lean witness
+	// C12Hist.killed_reopened_witness, same history: the user's kill races a pass that still works
+	// from a PRE-KILL copy of the Job.  That pass creates the retry, its status write conflicts with
+	// the kill; the next pass (kill seen, creation disabled) finds every RECORDED task finished and
+	// writes Finished/Killed while the unrecorded retry is alive and invisible to the pod cache; when
+	// its creation event arrives the pass adopts it and the Job is unfinished again (Killing).
+	// Outside E-OrphanVisible: the monitors are kept on for this replay.
+	c.RunScenario("f25-killed-job-reopened-by-unrecorded-task", func() {
+		w := newJobctlSc(c, func(j *execution.Job) { j.Spec.Template.MaxAttempts = i64p(2) })
+		w.keepMonitors = true
+		w.deliver("jobs")
+		w.work() // creates job-<h>-0, records it
+		w.deliver("jobs")
+		w.deliver("pods")
+		two := 2
+		for _, p := range w.ownedPods() {
+			w.forceKind = &two
+			w.kubelet(p, 3) // the first attempt fails
+		}
+		w.deliver("pods")
+		w.work()                      // the failure is recorded; the Job cache lags one version behind
+		w.setKill(w.clk.Now().Unix()) // the user kills the Job: the kill timestamp has passed
+		w.deliver("jobs")             // the cache catches up with the recorded failure only: no kill timestamp in it
+		w.work()                      // pre-kill copy: the retry job-<h>-1 is created; the status write conflicts with the kill
+		w.deliver("jobs")             // the kill reaches the cache
+		w.work()                      // creation disabled, every recorded ref finished: Finished/Killed; job-<h>-1 alive, unrecorded, not in the pod cache
+		fin := w.apiJob() != nil && w.apiJob().Status.Condition.Finished != nil
+		alive := 0
+		for _, p := range w.ownedPods() {
+			if podAlive(p) && p.DeletionTimestamp == nil {
+				alive++
+			}
+		}
+		if !fin || alive == 0 {
+			c.Violate("C11", "scenario-f25-shape", "the replay did not reach Finished with a live unrecorded task (finished=%v, live tasks=%d)", fin, alive)
+		}
+		w.deliver("pods") // the retry's creation event
+		w.deliver("jobs")
+		w.work() // the unrecorded task is adopted and swept: the Job is un-finished (Killing)
+		w.flush()
+		w.settle(4)
+		w.runTimersOut()
+		w.finalMonitors()
+		c.Nontrivial()
+	})
+
+	// F25, second history (Lean witness C10Hist.finished_with_unrecorded_live_task_witness; inside the
+	// envelope of the stability theorems: one write fault and pod-informer lag, no user action):
+	// AnySuccessful over two indexes.  The retry of the failed index is created while its status write
+	// conflicts; the other index's Succeeded event reaches the pod cache before the retry's creation
+	// event: the pass finds the strategy satisfied and nothing RECORDED alive, and writes
+	// Finished/Success while the retry runs.  (f23 is the same history with every event delivered
+	// before that pass: the retry is then adopted and stopped first.)
+	c.RunScenario("f25-finished-with-unrecorded-live-task", func() {
+		w := newJobctlSc(c, func(j *execution.Job) {
+			j.Spec.Template.MaxAttempts = i64p(2)
+			j.Spec.Template.Parallelism = &execution.ParallelismSpec{WithCount: i64p(2), CompletionStrategy: execution.AnySuccessful}
+		})
+		w.keepMonitors = true
+		w.deliver("jobs")
+		w.work() // creates index 0 and index 1, records both
+		w.deliver("jobs")
+		w.deliver("pods")
+		w.deliver("pods")
+		pods := w.ownedPods()
+		if len(pods) != 2 {
+			return
+		}
+		two, zero := 2, 0
+		w.forceKind = &two
+		w.kubelet(pods[0], 3) // the first index fails
+		w.deliver("pods")
+		w.work() // records the failure
+		w.deliver("jobs")
+		w.forceKind = &zero
+		w.kubelet(pods[1], 3)                      // the other index succeeds; the event is not delivered yet
+		w.faults = []string{"", sim.FaultConflict} // retry pod create ok, status update conflicts
+		c.Emit("jc.fault -", w.state())
+		c.Emit("jc.fault "+sim.FaultConflict, w.state())
+		w.work()          // creates the retry of the first index; it stays unrecorded, its event undelivered
+		w.deliver("pods") // the Succeeded event of the other index (queued before the retry's creation event)
+		w.work()          // AnySuccessful satisfied, no recorded task alive: Finished/Success while the retry runs
+		w.flush()
+		w.settle(4)
+		w.runTimersOut()
+		w.finalMonitors()
+		c.Nontrivial()
+	})
+
 	// F21: once creation is disabled (kill timestamp), unrecorded tasks are adopted from the pod
 	// cache; a stale cached copy of a RECORDED task that is gone (force-deleted) must not be.
 	c.RunScenario("f21-stale-copy-adopted-after-kill", func() {
